@@ -351,6 +351,8 @@ pub struct Engine {
     pub known_taint: Option<&'static str>,
     /// keys of lines chosen while resolving conflicts in the current op
     pub conflict_keys: BTreeSet<String>,
+    /// per file since the last commit: (an agent checkpointed it, a person edited it afterwards)
+    pub pending_file_state: BTreeMap<String, (bool, bool)>,
 }
 
 fn sig(pid: &str, s: &str) -> String {
@@ -423,6 +425,7 @@ impl Engine {
             preserving_ops_with_ai: 0,
             known_taint: None,
             conflict_keys: BTreeSet::new(),
+            pending_file_state: BTreeMap::new(),
         };
         e.known_commits = e.all_commits();
         Some(e)
@@ -721,6 +724,9 @@ impl Engine {
         let root = self.w.repo.join(".git/ai/working_logs");
         if let Ok(rd) = std::fs::read_dir(&root) {
             for d in rd.flatten() {
+                if d.file_name().to_string_lossy().starts_with("old-") {
+                    continue; // archived logs of commits that no longer are HEAD
+                }
                 for f in ["INITIAL", "checkpoints.jsonl"] {
                     let p = d.path().join(f);
                     if let Ok(b) = std::fs::read(&p) {
@@ -773,10 +779,16 @@ impl Engine {
                     "rebase" | "rebase-onto" | "rebase-i-reorder" | "rebase-i-squash" | "rebase-i-fixup" | "rebase-i-drop"
                         | "rebase-i-edit" | "cherry-pick"
                 );
+                // F5: the slow path writes cumulative notes (final state of every file):
+                // a rewritten commit's note may list lines it does not add, and the note
+                // of an intermediate rewritten commit describes lines by what they become
+                // later in the rewritten range
                 if rewritten
-                    && (v.sig.ends_with(":note-lists-line-not-added-by-commit") || v.sig.ends_with(":note-lists-file-not-changed-by-commit"))
+                    && (v.sig.ends_with(":note-lists-line-not-added-by-commit")
+                        || v.sig.ends_with(":note-lists-file-not-changed-by-commit")
+                        || (*c != head && is_misattribution_sig(&v.sig)))
                 {
-                    v.sig = sig(self.pid, "rewritten-commit-note-lists-lines-it-does-not-add");
+                    v.sig = sig(self.pid, "rewritten-commit-note-is-cumulative");
                 }
                 if let Some(t) = self.known_taint {
                     if is_misattribution_sig(&v.sig) {
@@ -916,7 +928,7 @@ impl Engine {
                 self.ai_pending = false;
                 self.pending_tainted = false;
                 self.pending_stash_shifted = false;
-                self.known_taint = None;
+                self.pending_file_state.clear();
                 true
             }
         }
@@ -991,6 +1003,16 @@ impl Engine {
                 let p = self.path_of(*file);
                 let eff = self.w.edit(*actor, &p, edit);
                 rep.class(format!("edit:{}", eff.applied_kind));
+                if eff.changed {
+                    let st = self.pending_file_state.entry(p.clone()).or_insert((false, false));
+                    if actor.is_ai() {
+                        // the agent's pre-edit human checkpoint also records what a person
+                        // did to this file before
+                        *st = (true, false);
+                    } else {
+                        st.1 = true;
+                    }
+                }
                 if actor.is_ai() && eff.changed {
                     self.ai_pending = true;
                 }
@@ -1059,10 +1081,10 @@ impl Engine {
             HOp::Amend { stage_all } => {
                 out.class = OpClass::Preserving;
                 let snap = self.checks.preservation.then(|| self.ai_snapshot());
-                if self.dirty() && !self.ai_pending {
-                    // F29: human-only changes since the commit
-                    rep.class("amend-after-human-only-edit");
-                    self.known_taint = Some("amend-after-human-only-edit-keeps-old-line-numbers");
+                if self.dirty() && self.pending_file_state.values().any(|(_, human_unckpt)| *human_unckpt) && self.known_taint.is_none() {
+                    // F29: edits by a person that no checkpoint has seen yet
+                    rep.class("amend-after-uncheckpointed-human-edit");
+                    self.known_taint = Some("amend-after-human-edit-keeps-old-line-numbers");
                 }
                 if *stage_all {
                     self.w.git(&["add", "-A"]);
@@ -1183,6 +1205,10 @@ impl Engine {
                         self.w.git(&["rebase", "--onto", &t, &format!("HEAD~{k}")])
                     }
                     other => {
+                        if *other == RebaseKind::Reorder && ahead >= 2 && self.known_taint.is_none() {
+                            // F32: notes follow the commits by position, not by identity
+                            self.known_taint = Some("rebase-reorder-maps-notes-by-position");
+                        }
                         let script = self.write_seq_script(*other);
                         self.w.git_env(&["rebase", "-i", &t], &[("GIT_SEQUENCE_EDITOR", &script), ("GIT_EDITOR", "true")])
                     }
@@ -1250,7 +1276,7 @@ impl Engine {
                 self.compare_digest(&digest, kind, rep);
             }
             HOp::CherryPick { branch, count, no_commit, resolve } => {
-                out.class = OpClass::Preserving;
+                out.class = if *no_commit { OpClass::Destructive } else { OpClass::Preserving };
                 self.autocommit_if_dirty(rep);
                 let cands = self.other_branches(true, false);
                 let Some(b) = Self::pick(&cands, *branch).cloned() else {
@@ -1297,7 +1323,7 @@ impl Engine {
                     if let Some(s) = snap {
                         self.check_preserved(&s, kind, rep);
                     }
-                    if self.checks.preservation && !c {
+                    if self.checks.preservation && !c && !*no_commit {
                         self.check_carried_from(&b, n, kind, rep);
                     }
                     if self.checks.safety {
@@ -1421,6 +1447,12 @@ impl Engine {
                     out.class = OpClass::Skipped;
                     return out;
                 }
+                if self.pending_file_state.values().any(|(ai, human_after)| *ai && *human_after) && self.known_taint.is_none() {
+                    // F31: the pre-stash checkpoint does not see unstaged edits a person made
+                    // after the last agent checkpoint of the file
+                    rep.class("stash-with-unstaged-human-edit-after-ai");
+                    self.known_taint = Some("stash-misses-unstaged-human-edits-after-ai-checkpoint");
+                }
                 let o = self.w.git(&["stash", "push", "-u", "-q"]);
                 out.ok = o.ok();
                 if o.ok() && !self.dirty() {
@@ -1451,6 +1483,9 @@ impl Engine {
                     if stashed_files.iter().any(|f| changed.contains(f)) {
                         rep.class("stash-restore-file-changed-since-stash");
                         self.pending_stash_shifted = true;
+                        if self.known_taint.is_none() {
+                            self.known_taint = Some("stash-restored-onto-changed-file-loses-attribution");
+                        }
                     }
                 }
                 let o = self.w.git(&["stash", if pop { "pop" } else { "apply" }, "-q"]);
@@ -1469,7 +1504,12 @@ impl Engine {
                 } else if !o.ok() {
                     out.ok = false;
                 }
-                if pop && (o.ok() || out.conflicted) {
+                if !pop && (o.ok() || out.conflicted) {
+                    // `apply` keeps the entry; drop it like a careful user would, so that
+                    // the same stash is never applied twice
+                    self.w.git(&["stash", "drop", "-q"]);
+                }
+                if o.ok() || out.conflicted {
                     self.stash_depth -= 1;
                     self.stash_heads.pop();
                 }
@@ -1567,27 +1607,23 @@ impl Engine {
                 }
             }
         }
-        if out.conflicted && !out.aborted {
-            // F30: lines kept from the other side while resolving a conflict inherit the
-            // rewritten commit's AI line numbers
+        {
+            // F30: lines chosen while resolving a conflict (now or earlier in this history)
+            // inherit the rewritten commit's AI line numbers
             for v in rep.violations.iter_mut() {
                 if is_misattribution_sig(&v.sig) && v.key.as_ref().map(|k| self.conflict_keys.contains(k)).unwrap_or(false) {
                     v.sig = sig(self.pid, "conflict-resolution-misattributes-resolved-lines");
                 }
             }
         }
-        self.conflict_keys.clear();
         if let Some(t) = self.known_taint {
             for v in rep.violations.iter_mut() {
                 if is_misattribution_sig(&v.sig) {
                     v.sig = sig(self.pid, t);
                 }
             }
-            // a rebase (or an amend that took everything) leaves nothing pending: the
-            // taint ends with the op
-            if kind.starts_with("rebase") || (kind == "amend" && !self.dirty()) {
-                self.known_taint = None;
-            }
+            // the wrong notes / INITIAL ranges a known finding leaves behind stay in the
+            // repository: the taint is sticky for the rest of the history
         }
         if matches!(out.class, OpClass::Destructive) && self.ai_pending {
             self.pending_tainted = true;
@@ -1651,7 +1687,21 @@ impl Engine {
     ) {
         let after = self.state_digest();
         rep.count("must_not_change_ops_checked", 1);
-        if before.0 != after.0 || before.1 != after.1 {
+        // every existing note must be byte-identical; a note may only be new if it
+        // annotates a commit no ref reaches (left over from the aborted operation)
+        let reachable = self.all_commits();
+        let mut bad = false;
+        for (c, b) in &before.0 {
+            if after.0.get(c) != Some(b) {
+                bad = true;
+            }
+        }
+        for c in after.0.keys() {
+            if !before.0.contains_key(c) && reachable.contains(c) {
+                bad = true;
+            }
+        }
+        if bad {
             rep.violate(
                 sig(self.pid, "notes-changed-by-op-that-must-not-change-anything"),
                 format!("[{kind}] notes before {:?} tip {} / after {:?} tip {}", before.0, before.1, after.0, after.1),
@@ -1675,7 +1725,11 @@ impl Engine {
             if !keys_now.contains(k) {
                 continue;
             }
-            let in_conflict_zone = self.w.model.map.get(k).map(|e| !e.also_ok.is_empty()).unwrap_or(false);
+            // lines chosen in a conflict resolution, and lines whose white space was
+            // re-touched in some commit (observation O1: the re-touching commit owns the
+            // line afterwards), admit more than one answer
+            let in_conflict_zone =
+                self.w.model.map.get(k).map(|e| !e.also_ok.is_empty() || !e.ws_touchers.is_empty()).unwrap_or(false);
             match after.get(k) {
                 Some(h2) if h2 == h => rep.judged_strict += 1,
                 other => {
@@ -1711,6 +1765,11 @@ impl Engine {
                         || e.also_ok.contains(&obs)
                         || e.ws_touchers.contains(&obs)
                         || (!e.strict && e.writers.contains(&obs)) => {}
+                Some(_) if self.w.model.del_neighbors.get(k).map(|d| d.contains(&obs)).unwrap_or(false) => rep.violate_key(
+                    sig(self.pid, "line-adjacent-to-deletion-attributed-to-deleter"),
+                    format!("[{kind}] key {k:?} became {:?}, who deleted the neighbouring line(s)", obs),
+                    k,
+                ),
                 Some(e) => rep.violate_key(
                     sig(self.pid, &format!("attribution-invented-by-{kind}")),
                     format!("[{kind}] key {k:?} became {:?} (was {:?} before); model says last editor {:?}", obs, before.get(k), e.last),
